@@ -6,13 +6,45 @@ Local Open Scope N_scope.
 
 (* ========================================================================= *)
 (* 1. attributes and the protobuf message: every field is carried both ways   *)
-Lemma attr_pb_roundtrip : forall a, pb_to_attr (Some (attr_to_pb a)) = a.
+(* ... except the sub-second part of the two times (the wire format has int64 seconds) *)
+Lemma attr_pb_roundtrip : forall a, pb_to_attr (Some (attr_to_pb a)) = wire_attr a.
 Proof. intros []; reflexivity. Qed.
+
+Lemma wire_attr_id_iff : forall a, wire_attr a = a <-> (a_mtime_ns a = 0 /\ a_crtime_ns a = 0).
+Proof.
+  intros []; unfold wire_attr; simpl. split.
+  - intros H. inversion H. split; congruence.
+  - intros [-> ->]. reflexivity.
+Qed.
 
 Lemma pb_attr_roundtrip : forall p, attr_to_pb (pb_to_attr (Some p)) = p.
 Proof. intros []; reflexivity. Qed.
 
-Lemma from_to_pb : forall e, from_pb (to_pb e) = e.
+Lemma from_to_pb : forall e, from_pb (to_pb e) = wire e.
+Proof. intros [[] x c h n ct r]. reflexivity. Qed.
+
+Lemma trigger_subsec_false : forall e, trigger_subsec e = false <->
+  (a_mtime_ns (e_attr e) = 0 /\ a_crtime_ns (e_attr e) = 0).
+Proof.
+  intros e. unfold trigger_subsec. rewrite orb_false_iff, !negb_false_iff, !N.eqb_eq. tauto.
+Qed.
+
+(* the wire form of an entry is the entry itself exactly when both times are whole seconds *)
+Lemma wire_id_iff : forall e, wire e = e <-> trigger_subsec e = false.
+Proof.
+  intros e. rewrite trigger_subsec_false, <- wire_attr_id_iff.
+  destruct e as [a x c h n ct r]. unfold wire, set_attr_chunks. simpl. split.
+  - intros H. inversion H as [H1]. rewrite H1. exact H1.
+  - intros ->. reflexivity.
+Qed.
+
+Lemma wire_idempotent : forall e, wire (wire e) = wire e.
+Proof. intros [[] x c h n ct r]. reflexivity. Qed.
+
+Lemma finish_wire : forall e, finish (wire e) = wire (finish e).
+Proof. intros [[] x c h n ct r]. reflexivity. Qed.
+
+Lemma view_wire : forall e, view (wire e) = wire (view e).
 Proof. intros [[] x c h n ct r]. reflexivity. Qed.
 
 (* ========================================================================= *)
@@ -132,12 +164,19 @@ Proof.
   destruct l as [|[|p] l]; try reflexivity. simpl. apply IHfuel.
 Qed.
 
-Lemma strip_zero_app : forall n a b, List.length a = n -> strip_zero_bytes n (a ++ b) = strip_zero_bytes n a ++ b.
+Lemma strip_zero_app : forall n a b, (n <= List.length a)%nat -> strip_zero_bytes n (a ++ b) = strip_zero_bytes n a ++ b.
 Proof.
   induction n; intros a b H.
-  - destruct a; [|discriminate]. simpl. destruct b; reflexivity.
-  - destruct a as [|x a]; [discriminate|]. simpl in H. inversion H.
-    destruct x as [|p]; simpl; [rewrite H1; apply IHn; assumption | reflexivity].
+  - simpl. destruct (a ++ b); destruct a; reflexivity.
+  - destruct a as [|x a]; [simpl in H; lia|]. simpl in H.
+    destruct x as [|p]; simpl; [apply IHn; lia | reflexivity].
+Qed.
+
+(* at most [fuel] bytes are dropped *)
+Lemma strip_zero_length_ge : forall fuel l, (List.length l <= List.length (strip_zero_bytes fuel l) + fuel)%nat.
+Proof.
+  induction fuel; intros l; simpl; [destruct l; simpl; lia|].
+  destruct l as [|[|p] l]; simpl; try lia. specialize (IHfuel l). lia.
 Qed.
 
 Lemma strip_zero_length : forall fuel l, (List.length (strip_zero_bytes fuel l) <= List.length l)%nat.
@@ -165,13 +204,13 @@ Proof.
   rewrite parse_hex_acc_bytes by assumption. reflexivity.
 Qed.
 
-Definition key_bytes (key : N) : list N := strip_zero_bytes 8 (be_bytes 8 key).
+Definition key_bytes (key : N) : list N := strip_zero_bytes 7 (be_bytes 8 key).
 
 Lemma format_key_cookie_split : forall key cookie,
   format_key_cookie key cookie = flat_map hex_byte (key_bytes key) ++ flat_map hex_byte (be_bytes 4 cookie).
 Proof.
   intros. unfold format_key_cookie, key_bytes.
-  rewrite strip_zero_app by apply be_bytes_length. apply flat_map_app.
+  rewrite strip_zero_app by (rewrite be_bytes_length; lia). apply flat_map_app.
 Qed.
 
 Lemma key_bytes_value : forall key, key < 18446744073709551616 -> bval 0 (key_bytes key) = key.
@@ -180,14 +219,18 @@ Proof.
   change (p256 8) with 18446744073709551616. rewrite N.mod_small by assumption. lia.
 Qed.
 
-Lemma key_bytes_zero : key_bytes 0 = [].
+(* repaired formatNeedleIdCookie: key 0 keeps one (zero) byte *)
+Lemma key_bytes_zero : key_bytes 0 = [0].
 Proof. reflexivity. Qed.
 
-Lemma key_bytes_nonempty : forall key, key < 18446744073709551616 -> key <> 0 -> key_bytes key <> [].
-Proof. intros key H Hz E. pose proof (key_bytes_value key H) as V. rewrite E in V. simpl in V. congruence. Qed.
+Lemma key_bytes_nonempty : forall key, key_bytes key <> [].
+Proof.
+  intros key E. pose proof (strip_zero_length_ge 7 (be_bytes 8 key)) as H.
+  fold (key_bytes key) in H. rewrite E, be_bytes_length in H. simpl in H. lia.
+Qed.
 
 Lemma key_bytes_length : forall key, (List.length (key_bytes key) <= 8)%nat.
-Proof. intros. unfold key_bytes. pose proof (strip_zero_length 8 (be_bytes 8 key)). rewrite be_bytes_length in H. assumption. Qed.
+Proof. intros. unfold key_bytes. pose proof (strip_zero_length 7 (be_bytes 8 key)). rewrite be_bytes_length in H. assumption. Qed.
 
 Lemma cookie_value : forall c, c < 4294967296 -> bval 0 (be_bytes 4 c) = c.
 Proof.
@@ -196,17 +239,14 @@ Qed.
 
 Lemma parse_key_cookie_format : forall key cookie,
   key < 18446744073709551616 -> cookie < 4294967296 ->
-  parse_key_cookie (format_key_cookie key cookie) = if key =? 0 then None else Some (key, cookie).
+  parse_key_cookie (format_key_cookie key cookie) = Some (key, cookie).
 Proof.
   intros key cookie Hk Hc. rewrite format_key_cookie_split. unfold parse_key_cookie.
   set (kh := flat_map hex_byte (key_bytes key)). set (ch := flat_map hex_byte (be_bytes 4 cookie)).
   assert (Lch : List.length ch = 8%nat) by (unfold ch; rewrite flat_hex_length, be_bytes_length; reflexivity).
   assert (Lkh : List.length kh = (2 * List.length (key_bytes key))%nat) by (unfold kh; apply flat_hex_length).
   rewrite app_length, Lch.
-  destruct (key =? 0) eqn:Ez.
-  - apply N.eqb_eq in Ez. subst key. unfold kh. rewrite key_bytes_zero. simpl. reflexivity.
-  - apply N.eqb_neq in Ez.
-    pose proof (key_bytes_nonempty key Hk Ez) as Hne. pose proof (key_bytes_length key) as Hle.
+  - pose proof (key_bytes_nonempty key) as Hne. pose proof (key_bytes_length key) as Hle.
     assert (Hpos : (0 < List.length (key_bytes key))%nat) by (destruct (key_bytes key); [congruence | simpl; lia]).
     replace (Nat.leb (List.length kh + 8) 8) with false by (symmetry; apply Nat.leb_gt; lia).
     replace (Nat.ltb 24 (List.length kh + 8)) with false by (symmetry; apply Nat.ltb_ge; lia).
@@ -225,9 +265,9 @@ Proof.
 Qed.
 
 (* parse . format: the canonical string of a file id parses back to the same id,
-   EXCEPT for needle key 0, whose canonical string has no key digits left *)
+   needle key 0 included (formatNeedleIdCookie as repaired keeps one key byte) *)
 Theorem parse_format_fid : forall f, fid_wf f = true ->
-  parse_fid (format_fid f) = if f_key f =? 0 then None else Some f.
+  parse_fid (format_fid f) = Some f.
 Proof.
   intros [v k c] H. apply fid_wf_spec in H. simpl in H. destruct H as [Hv [Hk Hc]].
   unfold parse_fid, format_fid. simpl f_vid. simpl f_key. simpl f_cookie.
@@ -235,8 +275,7 @@ Proof.
   pose proof (uint_digits_nonempty _ (to_uint_nonnil v)) as Hne. fold (dec_of_N v) in Hne.
   destruct (dec_of_N v) eqn:E; [congruence|]. rewrite <- E, parse_dec_of_N.
   replace (v <? 4294967296) with true by (symmetry; apply N.ltb_lt; assumption).
-  rewrite parse_key_cookie_format by assumption.
-  destruct (k =? 0); reflexivity.
+  rewrite parse_key_cookie_format by assumption. reflexivity.
 Qed.
 
 (* parse only produces ids that fit the Go types *)
@@ -284,27 +323,26 @@ Proof. intros s H. unfold canon_str. rewrite H. reflexivity. Qed.
 Theorem canon_str_idempotent : forall s, canon_str (canon_str s) = canon_str s.
 Proof.
   intros s. unfold canon_str at 2 3. destruct (parse_fid s) as [f|] eqn:E.
-  - unfold canon_str. rewrite (parse_format_fid f (parse_fid_wf s f E)).
-    destruct (f_key f =? 0); reflexivity.
+  - unfold canon_str. rewrite (parse_format_fid f (parse_fid_wf s f E)). reflexivity.
   - unfold canon_str. rewrite E. reflexivity.
 Qed.
 
 Lemma canon_str_canonical : forall s, fidstr_canonical (canon_str s) = true.
 Proof. intros. unfold fidstr_canonical. rewrite canon_str_idempotent. apply bytes_eqb_refl. Qed.
 
-(* the id a string denotes survives canonicalisation unless its needle key is 0 *)
-Theorem canon_str_preserves_id : forall s f, parse_fid s = Some f -> str_key_zero s = false ->
-  parse_fid (canon_str s) = Some f.
+(* the id a string denotes survives canonicalisation (needle key 0 included) *)
+Theorem canon_str_preserves_id : forall s f, parse_fid s = Some f -> parse_fid (canon_str s) = Some f.
 Proof.
-  intros s f H Hz. unfold canon_str. rewrite H. rewrite (parse_format_fid f (parse_fid_wf s f H)).
-  unfold str_key_zero in Hz. rewrite H in Hz. rewrite Hz. reflexivity.
+  intros s f H. unfold canon_str. rewrite H. apply (parse_format_fid f (parse_fid_wf s f H)).
 Qed.
 
-Theorem canon_str_loses_key_zero : exists s f, parse_fid s = Some f /\ parse_fid (canon_str s) = None.
-Proof.
-  exists (s2b "3,00637037d6"), {| f_vid := 3; f_key := 0; f_cookie := 1668298710 |}.
-  split; vm_compute; reflexivity.
-Qed.
+(* the former witness of finding 1 *)
+Lemma canon_str_key_zero_example :
+  canon_str (s2b "3,00637037d6") = s2b "3,00637037d6" /\
+  canon_str (s2b "3,0000000000000000637037D6") = s2b "3,00637037d6" /\
+  parse_fid (s2b "3,00637037d6") = Some {| f_vid := 3; f_key := 0; f_cookie := 1668298710 |} /\
+  parse_fid (s2b "3,637037d6") = None.
+Proof. vm_compute. repeat split; reflexivity. Qed.
 
 (* ========================================================================= *)
 (* 3. one chunk / one entry through prepare and finish                        *)
@@ -340,6 +378,39 @@ Proof.
   apply view_after_before. rewrite forallb_forall in Hc. apply Hc. assumption.
 Qed.
 
+(* AfterEntryDeserialization does not change what a reader sees *)
+Lemma view_after_chunk : forall c, view_chunk (after_chunk c) = view_chunk c.
+Proof.
+  intros c. unfold view_chunk, after_chunk. simpl.
+  assert (H : forall s f, id_string (after_id s f) f = id_string s f).
+  { intros s f. unfold id_string, after_id. destruct f as [x|]; [|reflexivity].
+    destruct s; simpl; [destruct (format_fid x); reflexivity | reflexivity]. }
+  rewrite !H. reflexivity.
+Qed.
+
+Lemma view_finish : forall e, view (finish e) = view e.
+Proof.
+  intros e. unfold view, finish, set_attr_chunks. simpl. f_equal.
+  rewrite map_map. apply map_ext. apply view_after_chunk.
+Qed.
+
+(* what comes back by lookup / wrapper listing, and by the stores' own prefixed listing *)
+Theorem view_read_back : forall e,
+  trigger_octet e = false -> trigger_subsec e = false ->
+  forallb chunk_canonical (e_chunks e) = true ->
+  view (read_back e) = view e /\ view (wire (prepare e)) = view e.
+Proof.
+  intros e Ho Hs Hc. apply wire_id_iff in Hs.
+  assert (Hw : wire (view e) = view e) by (rewrite <- view_wire, Hs; reflexivity).
+  split.
+  - unfold read_back. rewrite view_wire, view_canon by assumption. exact Hw.
+  - rewrite view_wire, <- (view_finish (prepare e)). fold (canon e). rewrite view_canon by assumption. exact Hw.
+Qed.
+
+(* independent of the triggers: the two read paths agree in the reader's view *)
+Lemma view_paths_agree : forall e, view (wire (prepare e)) = view (read_back e).
+Proof. intros e. unfold read_back, canon. rewrite !view_wire, view_finish. reflexivity. Qed.
+
 (* every file id a reader sees in a read-back entry is canonical *)
 Lemma id_string_canonical : forall s f,
   (forall y, f = Some y -> fid_wf y = true) ->
@@ -348,7 +419,7 @@ Proof.
   intros s f Hwf. unfold before_id.
   assert (Hfmt : forall y, fid_wf y = true -> fidstr_canonical (format_fid y) = true).
   { intros y Hy. unfold fidstr_canonical, canon_str. rewrite (parse_format_fid y Hy).
-    destruct (f_key y =? 0); apply bytes_eqb_refl. }
+    apply bytes_eqb_refl. }
   destruct s as [|x s]; simpl nonempty; cbv iota.
   - destruct f as [y|]; [|reflexivity].
     unfold id_string, after_id. simpl.
@@ -361,14 +432,22 @@ Proof.
       unfold id_string, after_id. simpl. destruct f; simpl; assumption.
 Qed.
 
+Definition wire_witness : entry :=
+  {| e_attr := {| a_mtime := 43200%Z; a_mtime_ns := 500000000; a_crtime := 43200%Z; a_crtime_ns := 0; a_mode := 420;
+                  a_uid := 0; a_gid := 0; a_mime := ""; a_replication := ""; a_collection := ""; a_ttl_sec := 0%Z;
+                  a_disk_type := ""; a_user_name := ""; a_group_names := []; a_symlink_target := ""; a_md5 := [];
+                  a_file_size := 0 |};
+     e_extended := []; e_chunks := []; e_hard_link_id := []; e_hard_link_counter := 0%Z; e_content := [];
+     e_remote := None |}.
+
 Definition chunk_fids_wf (c : chunk) : Prop :=
   (forall y, c_fid c = Some y -> fid_wf y = true) /\ (forall y, c_source_fid c = Some y -> fid_wf y = true).
 
 Theorem canon_ids_canonical : forall e,
   (forall c, In c (e_chunks e) -> chunk_fids_wf c) ->
-  forall c, In c (e_chunks (view (canon e))) -> chunk_canonical c = true.
+  forall c, In c (e_chunks (view (read_back e))) -> chunk_canonical c = true.
 Proof.
-  intros e Hwf c Hin. unfold view, canon, finish, prepare, set_attr_chunks in Hin. simpl in Hin.
+  intros e Hwf c Hin. unfold read_back, wire, view, canon, finish, prepare, set_attr_chunks in Hin. simpl in Hin.
   rewrite !map_map in Hin. apply in_map_iff in Hin. destruct Hin as [c0 [Hc Hin0]]. subst c.
   destruct (Hwf c0 Hin0) as [W1 W2].
   unfold chunk_canonical, view_chunk, after_chunk, before_chunk. simpl.
@@ -376,11 +455,26 @@ Proof.
 Qed.
 
 Theorem canon_identity_refuted : exists e,
-  forallb chunk_canonical (e_chunks e) = true /\ view (canon e) <> view e.
+  forallb chunk_canonical (e_chunks e) = true /\ trigger_subsec e = false /\ view (read_back e) <> view e.
 Proof.
   exists {| e_attr := set_mime zero_attr octet_stream; e_extended := []; e_chunks := [];
             e_hard_link_id := []; e_hard_link_counter := 0%Z; e_content := []; e_remote := None |}.
-  split; [reflexivity | vm_compute; discriminate].
+  split; [reflexivity | split; [reflexivity | vm_compute; discriminate]].
+Qed.
+
+(* finding 2: 12:00:00.5 comes back as 12:00:00 *)
+Theorem subsec_refuted : exists e,
+  forallb chunk_canonical (e_chunks e) = true /\ trigger_octet e = false /\ view (read_back e) <> view e.
+Proof.
+  exists (wire_witness).
+  split; [reflexivity | split; [reflexivity | vm_compute; discriminate]].
+Qed.
+
+(* exactly the times are affected: read_back differs from canon iff a time has a sub-second part *)
+Theorem read_back_canon_iff : forall e, read_back e = canon e <-> trigger_subsec e = false.
+Proof.
+  intros e. unfold read_back. rewrite wire_id_iff. unfold trigger_subsec, canon, finish, prepare, set_attr_chunks. simpl.
+  destruct (String.eqb (a_mime (e_attr e)) octet_stream); reflexivity.
 Qed.
 
 (* ========================================================================= *)
@@ -416,10 +510,10 @@ Qed.
 
 Hypothesis LW : codec_laws.
 
-Lemma decode_encode_entry : forall e, decode_entry C (encode_entry C e) = Some e.
+Lemma decode_encode_entry : forall e, decode_entry C (encode_entry C e) = Some (wire e).
 Proof. intros e. unfold decode_entry, encode_entry. rewrite (cl_decode_encode LW), from_to_pb. reflexivity. Qed.
 
-Lemma decode_stored_value : forall e, decode_entry C (maybe_decompress C (stored_value C e)) = Some e.
+Lemma decode_stored_value : forall e, decode_entry C (maybe_decompress C (stored_value C e)) = Some (wire e).
 Proof.
   intros e. unfold stored_value, maybe_decompress.
   pose proof (no_false_gzip (cl_first_byte LW) (to_pb e)) as Hng. fold (encode_entry C e) in Hng.
@@ -500,31 +594,124 @@ Proof.
   - inversion H; subst. assumption.
 Qed.
 
-(* the read-back of what was just written *)
+(* ---- names and their order ---- *)
+Lemma insert_name_In : forall n l x, In x (insert_name n l) <-> x = n \/ In x l.
+Proof.
+  intros n l x. induction l as [|m l IH]; simpl.
+  - split; intros [H|H]; auto; contradiction.
+  - destruct (String.eqb n m) eqn:E.
+    + apply String.eqb_eq in E. subst m. simpl. split; [auto | intros [H|H]; [left; auto | assumption]].
+    + destruct (str_leb n m); simpl; [split; intros [H|H]; auto|].
+      rewrite IH. split; [intros [H|[H|H]]; auto | intros [H|[H|H]]; auto].
+Qed.
+
+Lemma sort_names_In : forall l x, In x (sort_names l) <-> In x l.
+Proof.
+  induction l as [|n l IH]; intros x; simpl; [tauto|].
+  unfold sort_names in *. simpl. rewrite insert_name_In, IH. split; intros [H|H]; auto.
+Qed.
+
+Lemma names_in_In : forall (st : state blob) dir n,
+  In n (names_in st dir) <-> exists b, In ((dir, n), b) (st_entries st).
+Proof.
+  intros st dir n. unfold names_in. rewrite in_flat_map. split.
+  - intros [[[d m] b] [Hin H]]. simpl in H. destruct (String.eqb d dir) eqn:E; [|contradiction].
+    apply String.eqb_eq in E. destruct H as [H|[]]. subst. exists b. assumption.
+  - intros [b Hin]. exists ((dir, n), b). split; [assumption|]. simpl. rewrite String.eqb_refl. left. reflexivity.
+Qed.
+
+Lemma aget_In : forall (l : list (path * blob)) k v, In (k, v) l -> exists v', aget path_eqb k l = Some v'.
+Proof.
+  induction l as [|[k0 v0] l IH]; intros k v H; [contradiction|]. simpl.
+  destruct (path_eqb k k0) eqn:E; [eexists; reflexivity|].
+  destruct H as [H|H]; [|eapply IH; eassumption].
+  inversion H; subst. rewrite (proj2 (path_eqb_eq k k) eq_refl) in E. discriminate.
+Qed.
+
+Lemma aget_Some_In : forall (l : list (path * blob)) k v, aget path_eqb k l = Some v -> In (k, v) l.
+Proof.
+  induction l as [|[k0 v0] l IH]; intros k v H; [discriminate|]. simpl in H.
+  destruct (path_eqb k k0) eqn:E.
+  - apply path_eqb_eq in E. inversion H; subst. left. reflexivity.
+  - right. apply IH. assumption.
+Qed.
+
+(* the listing of the stores: exactly the names stored under the directory that pass
+   the prefix / start / inclusive filter, each with the decoding of its own value *)
+Theorem store_list_spec : forall st dir start incl pfx n oe,
+  In (n, oe) (store_list_all C st dir start incl pfx) <->
+  (list_filter start incl pfx n = true /\
+   exists b, aget path_eqb (dir, n) (st_entries st) = Some b /\
+             oe = decode_entry C (maybe_decompress C b)).
+Proof.
+  intros st dir start incl pfx n oe. unfold store_list_all. rewrite in_map_iff. split.
+  - intros [m [Hm Hin]]. inversion Hm; subst m. clear Hm.
+    apply filter_In in Hin. destruct Hin as [Hin Hf]. split; [assumption|].
+    apply sort_names_In, names_in_In in Hin. destruct Hin as [b Hin].
+    destruct (aget_In _ _ _ Hin) as [b' Hb']. exists b'. rewrite Hb'. split; reflexivity.
+  - intros [Hf [b [Hb Hoe]]]. exists n. rewrite Hb. split; [subst oe; reflexivity|].
+    apply filter_In. split; [|assumption].
+    apply sort_names_In, names_in_In. exists b. apply aget_Some_In. assumption.
+Qed.
+
+(* a page is a prefix of the whole listing *)
+Lemma store_list_page : forall st dir start incl limit pfx,
+  store_list C st dir start incl limit pfx = firstn limit (store_list_all C st dir start incl pfx).
+Proof. reflexivity. Qed.
+
+Lemma page_In : forall A (l : list A) n x, In x (firstn n l) -> In x l.
+Proof. intros A l n x H. rewrite <- (firstn_skipn n l). apply in_or_app. left. assumption. Qed.
+
+(* the read-back of what was just written: by lookup, by the wrapper's listing and by the
+   stores' own prefixed listing (whatever prefix, start name and inclusive flag let the name pass) *)
 Theorem insert_then_find : forall st p e st',
   wrapper_insert C st p e = Some st' ->
-  wrapper_find C st' p = SOk (canon e) /\
-  In (snd p, Some (canon e)) (wrapper_list C st' (fst p)).
+  wrapper_find C st' p = SOk (read_back e) /\
+  (forall start incl, list_filter start incl "" (snd p) = true ->
+     In (snd p, Some (read_back e)) (wrapper_list_all C st' (fst p) start incl)) /\
+  (forall start incl pfx, list_filter start incl pfx (snd p) = true ->
+     In (snd p, Some (wire (prepare e))) (store_list_all C st' (fst p) start incl pfx)).
 Proof.
   intros st p e st' H. unfold wrapper_insert in H.
   destruct (handle_hard_links C st p (prepare e)) as [st1|] eqn:Hh; [|discriminate].
   inversion H; subst st'. clear H.
-  assert (Hrd : maybe_read_hard_link C (store_insert C st1 p (prepare e)) (prepare e) = prepare e).
-  { unfold maybe_read_hard_link. destruct (nonempty (e_hard_link_id (prepare e))) eqn:Hid; [|reflexivity].
+  assert (Hrd : maybe_read_hard_link C (store_insert C st1 p (prepare e)) (wire (prepare e)) = wire (prepare e)).
+  { unfold maybe_read_hard_link.
+    change (e_hard_link_id (wire (prepare e))) with (e_hard_link_id (prepare e)).
+    destruct (nonempty (e_hard_link_id (prepare e))) eqn:Hid; [|reflexivity].
     replace (kv_get (e_hard_link_id (prepare e)) (store_insert C st1 p (prepare e)))
       with (kv_get (e_hard_link_id (prepare e)) st1) by reflexivity.
     rewrite (handle_hard_links_kv _ _ _ _ Hh Hid), decode_encode_entry. reflexivity. }
-  split.
-  - unfold wrapper_find, store_find, store_insert. simpl st_entries.
-    rewrite (aget_aput_same path_eqb path_eqb_eq), decode_stored_value.
-    fold (store_insert C st1 p (prepare e)). rewrite Hrd. reflexivity.
-  - unfold wrapper_list. unfold store_insert at 2. simpl st_entries. unfold aput. simpl flat_map.
-    rewrite String.eqb_refl. simpl. left.
-    rewrite decode_stored_value. fold (adel path_eqb p (st_entries st1)).
-    fold (aput path_eqb p (stored_value C (prepare e)) (st_entries st1)).
-    change {| st_entries := aput path_eqb p (stored_value C (prepare e)) (st_entries st1); st_kv := st_kv st1 |}
-      with (store_insert C st1 p (prepare e)).
-    rewrite Hrd. reflexivity.
+  assert (Hget : aget path_eqb p (st_entries (store_insert C st1 p (prepare e))) = Some (stored_value C (prepare e))).
+  { unfold store_insert. simpl st_entries. apply (aget_aput_same path_eqb path_eqb_eq). }
+  assert (Hlist : forall start incl pfx, list_filter start incl pfx (snd p) = true ->
+     In (snd p, Some (wire (prepare e))) (store_list_all C (store_insert C st1 p (prepare e)) (fst p) start incl pfx)).
+  { intros start incl pfx Hf. apply store_list_spec. split; [assumption|].
+    exists (stored_value C (prepare e)). rewrite <- surjective_pairing. split; [assumption|].
+    rewrite decode_stored_value. reflexivity. }
+  split; [|split].
+  - unfold wrapper_find, store_find. rewrite Hget, decode_stored_value, Hrd, finish_wire. reflexivity.
+  - intros start incl Hf. unfold wrapper_list_all.
+    pose proof (in_map (decorate C (store_insert C st1 p (prepare e))) _ _ (Hlist start incl ""%string Hf)) as Hm.
+    unfold decorate in Hm. cbn [fst snd] in Hm.
+    rewrite Hrd, finish_wire in Hm. exact Hm.
+  - exact Hlist.
+Qed.
+
+(* conversely, whatever a listing returns under a name is the decoding of the value
+   stored at exactly that path: a listing never invents or mixes entries *)
+Theorem listing_returns_stored : forall st dir start incl limit pfx n oe,
+  In (n, oe) (wrapper_list_prefixed C st dir start incl limit pfx) ->
+  list_filter start incl pfx n = true /\
+  match store_find C st (dir, n) with
+  | SOk e => oe = Some e
+  | SErr => oe = None
+  | SNotFound => False
+  end.
+Proof.
+  intros st dir start incl limit pfx n oe H. unfold wrapper_list_prefixed, store_list in H.
+  apply page_In, store_list_spec in H. destruct H as [Hf [b [Hb Hoe]]]. split; [assumption|].
+  unfold store_find. rewrite Hb. subst oe. destruct (decode_entry C (maybe_decompress C b)); reflexivity.
 Qed.
 
 (* an insert into the empty store cannot fail *)
@@ -556,3 +743,42 @@ Proof.
   intros. constructor; simpl; intros; try reflexivity.
   destruct (pb_first_byte m); inversion H; reflexivity.
 Qed.
+
+Definition c24_example_stmt : Prop :=
+  let mk := fun (id src : string) =>
+       {| c_file_id := s2b id; c_offset := 0%Z; c_size := 5; c_mtime := 7%Z; c_etag := "e"%string;
+          c_source_file_id := s2b src; c_fid := None; c_source_fid := None; c_cipher_key := [1; 2];
+          c_is_compressed := true; c_is_manifest := false |} in
+  let e := {| e_attr := set_mime zero_attr "text/plain"%string; e_extended := [("k"%string, [1])];
+              e_chunks := [mk "3,1637037D6"%string "4,02aabbccdd"%string; mk "abc"%string ""%string];
+              e_hard_link_id := [9; 9; 1]; e_hard_link_counter := 2%Z; e_content := [31; 139; 0];
+              e_remote := Some {| rm_last_modified_at := 1%Z; rm_size := 2%Z; rm_etag := "r"%string |} |} in
+  let small := {| e_attr := zero_attr; e_extended := []; e_chunks := []; e_hard_link_id := [];
+                  e_hard_link_counter := 0%Z; e_content := [7]; e_remote := None |} in
+  let C := sym_codec 100 50 in
+  match wrapper_insert C empty_state ("/d"%string, "f"%string) e with
+  | Some st1 =>
+    match wrapper_insert C st1 ("/d"%string, "fa"%string) small with
+    | Some st2 =>
+      match wrapper_insert C st2 ("/d"%string, "a b"%string) small with
+      | Some st3 =>
+        match wrapper_insert C st3 ("/d"%string, "f"%string) e with
+        | Some st4 =>
+            wrapper_find C st4 ("/d"%string, "f"%string) = SOk (read_back e) /\
+            map (fun c => c_file_id c) (e_chunks (read_back e)) = [s2b "3,01637037d6"; s2b "abc"] /\
+            view (read_back e) <> view e /\
+            map fst (wrapper_list C st4 "/d"%string ""%string true 10) = ["a b"; "f"; "fa"]%string /\
+            wrapper_list_prefixed C st4 "/d"%string "f"%string false 1 "f"%string = [("fa"%string, Some (wire (prepare small)))] /\
+            wrapper_list_prefixed C st4 "/d"%string ""%string true 1 "f"%string = [("f"%string, Some (wire (prepare e)))] /\
+            map (fun c => c_file_id c) (e_chunks (wire (prepare e))) = [[]; s2b "abc"]
+        | None => False
+        end
+      | None => False
+      end
+    | None => False
+    end
+  | None => False
+  end.
+
+Lemma c24_example_ok : c24_example_stmt.
+Proof. vm_compute. repeat split; try reflexivity; discriminate. Qed.
